@@ -43,6 +43,9 @@ static int      g_deadlock = 0, g_budget = 0;
 static long     g_seq = 0;
 static volatile int g_main_wake = 0;
 
+static volatile int  g_flag[64];
+static volatile long g_flag_value[64];
+
 #define MAX_MUTEX 16
 static pthread_mutex_t *g_mutex_ptr[MAX_MUTEX];
 static int      g_mutex_owner[MAX_MUTEX];
@@ -145,6 +148,7 @@ extern "C" void sim_plan_reset(int nclients, const long *choices, long nchoices,
 	g_rng = seed; g_hash = 0xcbf29ce484222325ull; g_deadlock = 0; g_budget = 0; g_seq = 0;
 	g_nmutex = 0;
 	g_active = 0;
+	for (int i = 0; i < 64; i++) { g_flag[i] = 0; g_flag_value[i] = -1; }
 	ev_init();
 	sim_events_clear();
 }
@@ -265,6 +269,28 @@ extern "C" int __wrap_pthread_mutex_unlock(pthread_mutex_t *m)
 }
 
 // ------------------------------------------------------------------------------------------
+// Cross-client hand-over of a value (an instance id that has just been destroyed) without any
+// synchronisation that ThreadSanitizer could see: relaxed atomics in this uninstrumented unit.
+extern "C" void sim_flag_set(int i, long value)
+{
+	__atomic_store_n(&g_flag_value[i & 63], value, __ATOMIC_RELAXED);
+	__atomic_store_n(&g_flag[i & 63], 1, __ATOMIC_RELAXED);
+}
+// waits (yielding the baton) until flag i is set; returns its value, or -1 when nobody can set it (single client, or every
+// other client finished or is blocked)
+extern "C" long sim_flag_wait(int i)
+{
+	SimClient *me = tl_self;
+	for (;;) {
+		if (__atomic_load_n(&g_flag[i & 63], __ATOMIC_RELAXED)) return __atomic_load_n(&g_flag_value[i & 63], __ATOMIC_RELAXED);
+		if (!g_active || !me || me == &g_main) return -1;
+		if (++g_steps > g_max_steps && g_max_steps > 0) { g_budget = 1; return -1; }
+		SimClient *to = pick(me, 1, SW_API);
+		if (!to) return -1;
+		handoff(me, to);
+	}
+}
+
 struct ThreadArg { void (*body)(int); int id; };
 static void *client_main(void *p)
 {
